@@ -281,6 +281,8 @@ class Interp:
     # name resolution
     # ==================================================================================
     def resolve_global(self, module, name):
+        if name == '__name__':
+            return module.name
         r = self.repo.resolve(module.name, name)
         if r is None or r[0] == 'missing':
             return self.builtin(name)
